@@ -6,8 +6,8 @@ _m(
     "Hypothesis draws (object graph of 2-5 attributes with one nested AutoSerialize level or two, C01 value kinds; in 1 of 6 cases an "
     "unserialisable leaf - dill cannot pickle it - at a drawn position as attribute / list element / dict value) x store zip|dir x mode "
     "w|o x pre-existing target {absent, earlier successful save of another graph, earlier save of the other store kind at the same "
-    "path, unrelated regular file, unrelated non-empty directory} x zip path given with or without the .zip suffix x fault timing "
-    "(before / after the operation) x exception type (OSError ENOSPC, RuntimeError, a custom Exception, KeyboardInterrupt) x compression.  Each case is first saved "
+    "path, unrelated regular file, unrelated non-empty directory} x zip path given with or without the .zip suffix and with dotted base names (run.v2, scan_0.5mrad, a.b.c) x fault timing "
+    "(before / after the operation) x exception type (cycled over the fault sites of each case: OSError ENOSPC, KeyboardInterrupt, RuntimeError, a custom Exception, SystemExit, MemoryError, GeneratorExit, a custom BaseException) x compression.  Each case is first saved "
     "un-faulted under counting wrappers to learn the number n of fault sites (calls of _serialize_value, _write_ndarray, _write_bytes, "
     "ZipFile.write), then re-saved from a fresh copy of the pre-state with the exception injected at EVERY site k = 1..n (exhaustive in "
     "k for each case).  Siblings with confusable names (t.tmp, t.zip.tmp, .t.zip, t vs t.zip, a sibling directory tree) surround the "
